@@ -237,4 +237,25 @@ def HistLinked (v : Variant) : State → List Op → Prop
   | _, [] => True
   | s, op :: ops => op.refsLinked s ∧ HistLinked v (step v s op).state ops
 
+/-- the places of the abstract catalogue a call may change (everything else keeps its type and data: `specStep_untouched`) -/
+def Op.touches (src : Option Src) : Op → Src → Prop
+  | .create d fn n _, p => p = ⟨d, fn, n⟩
+  | .setItem d fn n _, p => p = ⟨d, fn, n⟩
+  | .copyField _ d fn n, p => p = ⟨d, fn, n⟩
+  | .add d fn _, p => ∃ q, src = some q ∧ p = ⟨d, fn, q.col⟩
+  | .delItem d fn n, p => p = ⟨d, fn, n⟩
+  | .drop d fn n, p => p = ⟨d, fn, n⟩
+  | .deleteField d fn _, p => ∃ q, src = some q ∧ p = ⟨d, fn, q.col⟩
+  | .rename d fn dict, p => p.d = d ∧ p.frame = fn ∧ (p.col ∈ dict.map (·.1) ∨ p.col ∈ dict.map (·.2))
+  | .moveField _ d fn n, p => p = ⟨d, fn, n⟩ ∨ src = some p
+  | .createFrame d fn _, p => (p.d, p.frame) = (d, fn)
+  | .requireFrame d fn, p => (p.d, p.frame) = (d, fn)
+  | .copyFrame _ _ d fn, p => (p.d, p.frame) = (d, fn)
+  | .setFrame d fn sd sfn, p => (p.d, p.frame) = (d, fn) ∨ (sd = d ∧ (p.d, p.frame) = (d, sfn))
+  | .delFrame d fn, p => (p.d, p.frame) = (d, fn)
+  | .dropFrame d fn, p => (p.d, p.frame) = (d, fn)
+  | .deleteFrame d _ sfn, p => (p.d, p.frame) = (d, sfn)
+  | .moveFrame sd sfn d fn, p => (p.d, p.frame) = (d, fn) ∨ (p.d, p.frame) = (sd, sfn)
+  | .reopen _, _ => False
+
 end Exetera.Catalogue
